@@ -1,12 +1,14 @@
 #!/usr/bin/env python3
-"""Prints the markdown table of the second-wave seeded changes from seeded/<id>-w2-<k>/ (first evaluation: verify.log,
-evaluation after strengthening: recheck.log)."""
+"""Prints the markdown table of the seeded changes of wave N (argument, default 2) from seeded/<id>-wN-<k>/ (first
+evaluation: verify-first.log or verify.log, evaluation after strengthening: recheck.log)."""
 import json, os, re, sys
 root = os.path.join(os.path.dirname(os.path.abspath(__file__)), '..', 'seeded')
-notes = json.load(open(os.path.join(root, 'w2-notes.json'))) if os.path.exists(os.path.join(root, 'w2-notes.json')) else {}
+wave = sys.argv[1] if len(sys.argv) > 1 else '2'
+nf = os.path.join(root, 'w%s-notes.json' % wave)
+notes = json.load(open(nf)) if os.path.exists(nf) else {}
 rows = []
 for d in sorted(os.listdir(root)):
-    m = re.match(r'^(C\d\d)-w2-(\d)$', d)
+    m = re.match(r'^(C\d\d)-w%s-(\d)$' % wave, d)
     if not m:
         continue
     p = os.path.join(root, d)
@@ -23,12 +25,15 @@ for d in sorted(os.listdir(root)):
             return None
         mm = re.search(r'caught_by=(.*)', t)
         return mm.group(1).strip() if mm else ''
-    first, now = caught('verify.log'), caught('recheck.log')
+    first = caught('verify-first.log')
+    if first is None:
+        first = caught('verify.log')
+    now = caught('recheck.log')
     summ = (meta.get('summary') or '').replace('|', '/').replace('\n', ' ')
     if len(summ) > 230:
         summ = summ[:230] + '...'
     key = '%s-%s' % (m.group(1), m.group(2))
     note = 'caught by the check as built at that time' if first else ('missed at first: ' + notes.get(key, ''))
-    rows.append('| %s (w2) | %s | %s | %s |' % (key, summ, now if now is not None else (first or '?'), note))
+    rows.append('| %s (w%s) | %s | %s | %s |' % (key, wave, summ, now if now is not None else (first or '?'), note))
 print('| change | what it does (agent\'s summary) | caught by | note |\n|---|---|---|---|')
 print('\n'.join(rows))
